@@ -72,6 +72,9 @@ def correspond(ctx):
                                 "replay_env": "VERIF_ROUNDS=%d VERIF_SEED=%d go test -run TestVerifC12Stress" % (rounds, ctx.seed)})
             violations.append(Violation("c12-stress-content", "free-running writer/storer, round %d (%d writes): Close returned but the storing side got %s bytes, expected %d (first difference at offset %d)"
                                         % (b["Round"], b["Writes"], b["Got"], b["Want"], b["FirstDiff"]), rp))
+        if stress.get("store_failure_bad"):
+            rp = C.write_replay("C12", "store-failure", {"property": "C12", "kind": "store-failure", "observed": stress["store_failure_bad"][:8]})
+            violations.append(Violation("c12-store-failure", "read-writer whose storing side fails: " + stress["store_failure_bad"][0], rp))
         if "DATA RACE" in out:
             rp = C.write_replay("C12", "race", {"property": "C12", "kind": "race", "report": out[:6000]})
             violations.append(Violation("c12-race", "data race between Write and the storing side's Read (race detector report in the replay)", rp))
